@@ -15,7 +15,10 @@
 (*                "untrimmed" the read still starts with the ligated T                            *)
 (*   clip / clip3  soft-clipped bases at the 5' / 3' end of R1 (read orientation), n read length  *)
 (*   r2     "none" | "proper" (opposite strand) | "same" (same strand as R1; chic rejects it)     *)
-(*          | "unmapped" | "intercontig" (mate elsewhere; irrelevant for the site)                *)
+(*          | "unmapped" | "unmapped_rev" (half-mapped pair: mate present but unmapped, placed at *)
+(*          R1's position, reverse flag off / on - the flag of an unmapped read is NOT a strand   *)
+(*          and is kept as it is in the mirror image) | "intercontig" (mate elsewhere).           *)
+(*          None of these matters for the site.                                                   *)
 (*   contig name of the contig R1 maps to (part of the dedup key)                                 *)
 (*   mx     the MX tag of the reads (demultiplexing strategy short name) as a sequence of          *)
 (*          characters, <<>> = no tag. The layout `kind` is the GROUND TRUTH (does the registered  *)
@@ -105,8 +108,8 @@ FwdWellFormed(s) ==
                           /\ s.radius = 0
                           /\ s.kind = "mm" => s.mmpos \in 0 .. 3 /\ s.mmbase \in ReadBase /\ s.mmbase # CATG[s.mmpos + 1]
                           /\ s.kind = "extra" => s.xbase \in Base
-                          /\ s.r2 \in {"none", "proper", "unmapped", "intercontig"}
-    /\ s.proto = "chic" => s.radius \in {0, 2} /\ s.kind \in {"trimmed", "untrimmed"} /\ s.r2 \in {"none", "proper", "same", "unmapped", "intercontig"}
+                          /\ s.r2 \in {"none", "proper", "unmapped", "unmapped_rev", "intercontig"}
+    /\ s.proto = "chic" => s.radius \in {0, 2} /\ s.kind \in {"trimmed", "untrimmed"} /\ s.r2 \in {"none", "proper", "same", "unmapped", "unmapped_rev", "intercontig"}
 WellFormed(s) == s.proto \in {"nla", "chic"} /\ FwdWellFormed(IF s.rev THEN MirrorScn(s) ELSE s)
 
 ---------------------------------------------------------------------------------------------------
@@ -293,6 +296,13 @@ ChoosesExtra(s) ==
                              km \in { <<"trimmed", MX_scCHIC384C8U3se>>, <<"trimmed", MX_scCHIC384C8U3l>>, <<"trimmed", MX_TCHIC>>,
                                        <<"untrimmed", <<>> >> } :
             s = [Mk("chic", f, 11, rv, [kind |-> km[1], mmpos |-> 0, mmbase |-> "A", xbase |-> "A"], c, 0, n, "none", o) EXCEPT !.mx = km[2]]
+    \* half-mapped and inter-contig pairs, both strands of R1, both values of the unmapped mate's reverse flag
+    \/ "chic" \in Protos /\ \E f \in Flanks, rv \in BOOLEAN, k \in ChicKinds, c \in {0, 2}, n \in ReadLens, o \in ChicOpts,
+                             r2 \in {"unmapped", "unmapped_rev", "intercontig"} :
+            s = Mk("chic", f, 11, rv, k, c, 0, n, r2, o)
+    \/ "nla" \in Protos /\ \E f \in Flanks, rv \in BOOLEAN, k \in {x \in NlaKinds : x.kind \in {"ok", "lost"}}, c \in {0, 2}, n \in ReadLens,
+                            o \in {x \in NlaOpts : x.check_motif /\ ~x.no_cigar /\ ~x.invert_strand}, r2 \in {"unmapped", "unmapped_rev", "intercontig"} :
+            s = Mk("nla", f, 10, rv, k, c, 0, n, r2, o)
 ChoosesChic(s) == "chic" \in Protos /\
     \E f \in Flanks, p \in {11, 12}, rv \in BOOLEAN, k \in ChicKinds, c \in 0 .. MaxClip, c3 \in Clip3s, n \in ReadLens,
        r2 \in {"none", "proper", "same"}, o \in ChicOpts : s = Mk("chic", f, p, rv, k, c, c3, n, r2, o)
